@@ -128,6 +128,11 @@ func (g *smallGen) next(m *ttlModel, now int64, step int) cop {
 	case 2:
 		return cop{Op: pick(r, removeOps), K: key()}
 	case 3:
+		if len(pending) > 0 && r.chance(0.25) {
+			// traversal during which the clock passes an expiry instant
+			e := m.m[pick(r, pending)].e
+			return cop{Op: "RangeAdv", Now: e + int64(r.between(0, 2))}
+		}
 		switch r.intn(6) {
 		case 0:
 			return cop{Op: "Items"}
@@ -245,7 +250,7 @@ func genBulkCase(r rng, mode string) *seqCase {
 			default:
 				d = time.Duration(r.between(1, 3)) * time.Millisecond
 			}
-			add(cop{Op: pick(r, []string{"Set", "Set", "GetAndSet", "GetOrSet", "Compute"}), K: k, V: val{K: int32(k), ID: id}, D: d, Fn: "set"})
+			add(cop{Op: pick(r, []string{"Set", "Set", "GetAndSet", "GetOrSet", "Compute"}), K: k, V: mkVal(k, id), D: d, Fn: "set"})
 			if k%97 == 0 {
 				add(cop{Op: "Get", K: r.intn(n)})
 			}
@@ -334,19 +339,19 @@ func productCases(flavors []string) []*seqCase {
 							id++
 							switch prior {
 							case 1:
-								script = append(script, cop{Op: "Set", K: k, V: val{int32(k), id}, D: time.Hour})
+								script = append(script, cop{Op: "Set", K: k, V: mkVal(k, id), D: time.Hour})
 							case 2:
-								script = append(script, cop{Op: "Set", K: k, V: val{int32(k), id}, D: 1}, cop{Op: "Clock", Now: -5}) // relative advance, see Gen
+								script = append(script, cop{Op: "Set", K: k, V: mkVal(k, id), D: 1}, cop{Op: "Clock", Now: -5}) // relative advance, see Gen
 							}
 							id++
 							switch opn {
 							case "SetDefaultExpiration+SetDefault":
-								script = append(script, cop{Op: "SetDefaultExpiration", D: d}, cop{Op: "SetDefault", K: k, V: val{int32(k), id}},
+								script = append(script, cop{Op: "SetDefaultExpiration", D: d}, cop{Op: "SetDefault", K: k, V: mkVal(k, id)},
 									cop{Op: "DefaultExpiration"})
 							case "Compute":
-								script = append(script, cop{Op: opn, K: k, V: val{int32(k), id}, D: d, Fn: "set"})
+								script = append(script, cop{Op: opn, K: k, V: mkVal(k, id), D: d, Fn: "set"})
 							default:
-								script = append(script, cop{Op: opn, K: k, V: val{int32(k), id}, D: d})
+								script = append(script, cop{Op: opn, K: k, V: mkVal(k, id), D: d})
 							}
 							// boundary reads are appended by the generator (they need the model's e)
 							script = append(script, cop{Op: "@boundary", K: k})
